@@ -25,6 +25,7 @@ func withQuietOpt(base string, perm []int, restart bool) func() *Scenario {
 		sc.Goal = func(w *World) bool {
 			return w.vals["quiet"] == 1 && w.vals["probed"] == 1 && w.converged()
 		}
+		sc.GiveUpAt, sc.GiveUpTo = sc.Horizon, "faults-stop" // a stalled fault phase is still followed by the quiet phase
 		sc.Horizon += 3000
 		sc.Steps = append(sc.Steps,
 			stepDo("faults-stop", nil, func(w *World) {
